@@ -1394,8 +1394,12 @@ def _race_check(ctx):
     ms = 1500 if tier == "quick" else 4000
     from concurrent.futures import ThreadPoolExecutor
     def one(sd):
-        r = subprocess.run([os.path.join(C.BIN, "racedrive-race"), str(sd), str(ms)], env=dict(os.environ, GOLOG_LOG_LEVEL="fatal", GORACE="halt_on_error=0 exitcode=66"),
-                           stdout=subprocess.PIPE, stderr=subprocess.STDOUT, text=True, timeout=900)
+        try:
+            r = subprocess.run([os.path.join(C.BIN, "racedrive-race"), str(sd), str(ms)], env=dict(os.environ, GOLOG_LOG_LEVEL="fatal", GORACE="halt_on_error=0 exitcode=66"),
+                               stdout=subprocess.PIPE, stderr=subprocess.STDOUT, text=True, timeout=300)
+        except subprocess.TimeoutExpired as e:
+            # a call of the workload never returned: not a data race in itself (that is C05 / C12's matter) - what the detector printed so far still counts
+            return sd, -9, (e.stdout or b"").decode(errors="replace") if isinstance(e.stdout, (bytes, bytearray)) else (e.stdout or "")
         return sd, r.returncode, r.stdout
     with ThreadPoolExecutor(4) as ex:
         outs = list(ex.map(one, seeds))
@@ -1408,7 +1412,7 @@ def _race_check(ctx):
             rep = rep[:rep.find("==================", 10) if "==================" in rep[10:] else 3000]
             frames = [l.strip() for l in rep.split("\n") if "go-storethehash/store" in l and "(" in l]
             races.append((sd, frames[:2], rep[:3500]))
-        elif rc not in (0, 66):
+        elif rc not in (0, 66, -9):
             races.append((sd, ["workload crashed (exit %d)" % rc], out[-2500:]))
     if races:
         sd, frames, rep = races[0]
